@@ -174,17 +174,26 @@ func cmdWorker(args []string) int {
 			l.Sample = o.Sample
 			samples++
 		}
-		if len(o.Violations) > 0 {
-			v := o.Violations[0]
-			l.Viol = []*kernel.Violation{v}
-			if o.Trace != nil && !known.isKnown(v) && p.Replay != nil {
+		// known findings are reported but never mask another violation of the same run
+		var firstUnknown *kernel.Violation
+		seenSig := map[string]bool{}
+		for _, v := range o.Violations {
+			if known.isKnown(v) {
+				if !seenSig[v.Signature] {
+					seenSig[v.Signature] = true
+					l.Viol = append(l.Viol, v)
+				}
+			} else if firstUnknown == nil {
+				firstUnknown = v
+			}
+		}
+		if firstUnknown != nil {
+			v := firstUnknown
+			l.Viol = append(l.Viol, v)
+			if o.Trace != nil && p.Replay != nil {
 				tr := minimise(p, o.Trace, v)
 				tr.Property, tr.Check, tr.Signature, tr.Message = v.Property, v.Check, v.Signature, v.Message
 				l.TraceFile = writeReplay(p.ID, seed, tr)
-			} else if o.Trace != nil && p.Replay != nil {
-				tr := o.Trace
-				tr.Property, tr.Check, tr.Signature, tr.Message = v.Property, v.Check, v.Signature, v.Message
-				l.TraceFile = writeReplayNamed(filepath.Join(verifDir(), "replays", fmt.Sprintf("tmp-known-%s-%d.json", p.ID, seed)), tr)
 			}
 		}
 		emitLine(l)
@@ -545,14 +554,13 @@ func cmdCheck(args []string) int {
 	for _, f := range founds {
 		if e := known.match(f.v); e != nil {
 			knownSeen[e.Property+"|"+e.Signature] = e
-			if strings.Contains(f.trace, "tmp-known-") {
-				_ = os.Remove(f.trace)
-			}
 			continue
 		}
 		key := f.v.Property + "|" + f.v.Check + "|" + f.v.Signature
 		if _, ok := newBySig[key]; !ok {
 			newBySig[key] = f
+		} else if f.trace != "" {
+			_ = os.Remove(f.trace) // one replay file per distinct violation
 		}
 	}
 	// canned replays of known findings that random search did not hit
